@@ -16,7 +16,8 @@ FloatOpWhy(e) ==
       \* the contract is invariant under scaling by a power of the base: shift so that the operand is sig * B^min(exp, 0)
       x == FVal(B, e.a)
       t == QTrunc(x)
-  IN IF ~(e.a.inf = 0 /\ IsInt(e.a.sig) /\ SigDigits(B, e.a.sig.m) <= e.a.prec) THEN "operand-outside-precondition"
+  IN IF ~(e.a.inf = 0 /\ IsInt(e.a.sig) /\ (e.a.prec = 0 \/ SigDigits(B, e.a.sig.m) <= e.a.prec))      \* precision 0 = unlimited
+     THEN "operand-outside-precondition"
      ELSE IF e.out.k # "ok" THEN "unexpected-panic"
      ELSE CASE e.op = "trunc" -> IF FloatIsQ(B, v, IntQ(t)) THEN "" ELSE "wrong-value"
             [] e.op = "floor" -> IF FloatIsQ(B, v, IntQ(QFloor(x))) THEN "" ELSE "wrong-value"
@@ -34,7 +35,7 @@ FloatOpWhy(e) ==
                  LET x0 == IntQ(e.a.sig)                     \* operand and result shifted by the operand's exponent
                      r0 == Shift(v.v, e.a.exp)
                  IN IF ~FloatOK(v.v) THEN "malformed-result"
-                    ELSE IF e.q = 0 \/ e.q >= e.a.prec
+                    ELSE IF e.q = 0 \/ (e.a.prec # 0 /\ e.q >= e.a.prec)        \* not below the current precision (0 = unlimited)
                     THEN (IF QEq(FVal(B, r0), x0) /\ v.flag = "Exact" THEN "" ELSE "not-kept-exactly")
                     ELSE RoundedWhy(B, e.q, e.mode, x0, r0, v.flag)
 
